@@ -428,7 +428,7 @@ def term_part(prop, tier, seed):
 CORE_CFGS = {   # property -> (quick configs, thorough configs) of MPBCore.tla
     "C01": (["q0", "rm", "manual", "sync2q0"], ["q0", "rm", "drop", "queue", "pop", "write", "sync2", "mixed2", "shut", "manual", "manualsync", "none", "fault1", "prio", "sync2q0", "three"]),
     "C02": (["q0", "sync2q0", "priorm"], ["q0", "shut", "two", "sync2q0", "sync2q1", "priorm", "priopop"]),
-    "C03": (["write", "rm"], ["write", "rm", "drop", "two"]),
+    "C03": (["write", "rm", "uwg"], ["write", "rm", "drop", "two", "uwg"]),
     "C05": (["rm", "queue"], ["rm", "drop", "queue", "pop", "mixed2", "sync2q0"]),
     "C06": (["prio", "priorm"], ["prio", "priolazy", "priolazyimm", "queue", "pop", "priorm", "priopop"]),
     "C15": (["fault1", "faultsync"], ["fault1", "fault2", "faultsync"]),
